@@ -2,6 +2,7 @@ package props
 
 import (
 	"go/ast"
+	"sort"
 	"strings"
 
 	"pdfverif/internal/core"
@@ -132,7 +133,7 @@ func runC17(c *core.Ctx) {
 		}
 		var guard *core.V
 		for _, bv := range g.BranchVertices() {
-			if bv.Cond.Expr != nil && strings.ReplaceAll(core.ExprStr(bv.Cond.Expr), " ", "") == "w.hasEntries&&key<=w.lastKey" {
+			if bv.Cond.Expr != nil && conjunctSet(bv.Cond.Expr) == "key<=w.lastKey&&w.hasEntries" {
 				guard = bv
 				o.At(fn.Site(bv.AST, "order check"))
 			}
@@ -252,4 +253,23 @@ func runC17(c *core.Ctx) {
 		}
 		o.Require(ok, "no write-free zero-reference return for the empty tree")
 	})
+}
+
+// conjunctSet renders the conjuncts of a condition sorted, so that the
+// order in which they are written does not matter.
+func conjunctSet(e ast.Expr) string {
+	var parts []string
+	var walk func(e ast.Expr)
+	walk = func(e ast.Expr) {
+		e = ast.Unparen(e)
+		if be, ok := e.(*ast.BinaryExpr); ok && be.Op.String() == "&&" {
+			walk(be.X)
+			walk(be.Y)
+			return
+		}
+		parts = append(parts, strings.ReplaceAll(core.ExprStr(e), " ", ""))
+	}
+	walk(e)
+	sort.Strings(parts)
+	return strings.Join(parts, "&&")
 }
